@@ -87,11 +87,15 @@ Proof.
 Qed.
 Print Assumptions c17_cycle_silent_refuted.
 
-(* Replace: Before("*").Register(u1); Replace(u1) runs the OLD handler, at another position *)
-Theorem c17_replace_refuted : exists h,
-  in_domain h = true /\ runs cl_handler true h = false /\ runs cl_replace true h = false.
-Proof. exists w_star_replace. pose proof star_replace_old_handler as H. tauto. Qed.
-Print Assumptions c17_replace_refuted.
+(* Replace of a "*" callback: since /repo e28c215 the new handler runs at the old place, and the whole
+   property holds on the former witness Before("*").Register(u1); Replace(u1) (before that commit:
+   c17_replace_refuted - the old handler kept running, behind the built-ins) *)
+Theorem c17_star_replace_fixed :
+  in_domain w_star_replace = true
+  /\ last (run w_star_replace) OCrash = OOk [("u1", 2%N); ("gorm:row", 0%N)]
+  /\ runs spec_ok false w_star_replace = true.
+Proof. exact star_replace_fixed. Qed.
+Print Assumptions c17_star_replace_fixed.
 
 (* sides: a SATISFIABLE request (no cycle in the constraint graph, "*" edges included) is answered
    nil with a callback on the wrong side: After("*").Register(u1); Before(u1).Register(u2); Register(u3) *)
